@@ -78,3 +78,70 @@ Qed.
 (* the pair test of _add_transition_bonds *)
 Theorem pair_compatible_is_source dl dr : sa_pair_compatible dl dr = compatible dl dr.
 Proof. apply src_compat_model. Qed.
+
+(* _add_transition_bonds: the transition edges of a pair of consecutive elements rebuilt from the regenerated tests (pair test, the
+   two terminal tests, the end-group exclusion); the try / except dispatch on tokens is pinned by the skeleton *)
+Definition trans_edges_src (lhs rhs : aelem) (offl offr : list Z) : list aedge :=
+  flat_map (fun tl : nat * descr =>
+    let '(ti, dl) := tl in
+    flat_map (fun tr : nat * descr =>
+      let '(tj, dr) := tr in
+      if sa_pair_compatible dl dr then
+        (* try: terminal_ok = <right_ok>  except AttributeError (a token has no terminal): terminal_ok = True *)
+        let ok := match rhs with
+                  | AStoch l _ _ _ => match inv_terminal l with Some i => sa_right_ok i dr | None => false end
+                  | ATok _ => true end in
+        (* if terminal_ok: try: terminal_ok = <left_ok>  except AttributeError: unchanged for a token *)
+        let ok := if ok then match lhs with
+                             | AStoch _ r _ _ => match inv_terminal r with Some i => sa_left_ok i dl | None => false end
+                             | ATok _ => true end
+                  else false in
+        if ok then
+          (* exclude = True; try: exclude = <enters_repeat>  except AttributeError: True for a token *)
+          let into := match rhs with AStoch _ _ _ _ => sa_enters_repeat tj (nrep_of rhs) | ATok _ => true end in
+          if into then
+            [{| a_u := (off_of offl ti + datom dl)%Z; a_v := (off_of offr tj + datom dr)%Z; a_bt := order_code (d_order dl);
+                a_kind := WTrans; a_w := wq dr |}]
+          else []
+        else []
+      else []) (flat rhs)) (flat lhs).
+
+
+Theorem trans_edges_is_source lhs rhs offl offr : trans_edges_src lhs rhs offl offr = trans_edges lhs rhs offl offr.
+Proof.
+  unfold trans_edges_src, trans_edges. apply flat_map_ext''. intros [ti dl]. apply flat_map_ext''. intros [tj dr].
+  unfold sa_pair_compatible, sa_right_ok, sa_left_ok, sa_enters_repeat. rewrite src_compat_model.
+  destruct (compatible dl dr); cbn [negb]; [|reflexivity].
+  destruct rhs as [tr|lr rr repr endr], lhs as [tl|ll rl repl endl]; cbn [andb].
+  - reflexivity.
+  - destruct (inv_terminal rl) as [i|]; [rewrite src_compat_model; destruct (compatible i dl); reflexivity|reflexivity].
+  - destruct (inv_terminal lr) as [i|]; [rewrite src_compat_model, zlt_nat''; destruct (compatible i dr); cbn [andb]; [destruct (Nat.ltb _ _); reflexivity|reflexivity]|reflexivity].
+  - destruct (inv_terminal lr) as [i|]; [|reflexivity]. rewrite src_compat_model. destruct (compatible i dr); cbn [andb]; [|reflexivity].
+    destruct (inv_terminal rl) as [i2|]; [|reflexivity]. rewrite src_compat_model, zlt_nat''. destruct (compatible i2 dl); cbn [andb]; [destruct (Nat.ltb _ _); reflexivity|reflexivity].
+Qed.
+
+(* StochasticAtomGraph.generate: every element's static, stochastic / termination edges, then the transition edges of each consecutive
+   pair, written over the regenerated decisions *)
+Fixpoint graph_elems_src (es : list aelem) (offs : list Z) : list aedge :=
+  match es, offs with
+  | e :: re, o :: ro =>
+      let toffs := tok_offsets o (toks_of e) in
+      statics toffs (toks_of e)
+      ++ (match e with AStoch _ _ _ _ => stoch_edges_src e toffs | ATok _ => [] end)
+      ++ (match re, ro with
+          | e2 :: _, o2 :: _ => trans_edges_src e e2 toffs (tok_offsets o2 (toks_of e2))
+          | _, _ => []
+          end)
+      ++ graph_elems_src re ro
+  | _, _ => []
+  end.
+Definition atom_graph_src (es : list aelem) : Z * list aedge :=
+  (fold_right Z.add 0%Z (map elem_natoms es), graph_elems_src es (elem_offsets 0 es)).
+
+Theorem atom_graph_is_source es : atom_graph_src es = atom_graph es.
+Proof.
+  unfold atom_graph_src, atom_graph. f_equal. generalize (elem_offsets 0 es) as offs.
+  induction es as [|e re IH]; intros offs; [reflexivity|]. destruct offs as [|o ro]; [reflexivity|].
+  cbn [graph_elems_src graph_elems]. rewrite IH, stoch_edges_is_source.
+  destruct re as [|e2 re2]; [reflexivity|]. destruct ro as [|o2 ro2]; [reflexivity|]. rewrite trans_edges_is_source. reflexivity.
+Qed.
